@@ -56,7 +56,7 @@ def yield_filter(op: str, path: str, phase: tuple) -> bool:
 
 
 def run_case(ctx, txns: List[Dict[str, Any]], chooser_factory, age_jump: int, second_gc: bool = False,
-             delayed_flip: bool = False, grace: int = 0) -> Dict[str, Any]:
+             delayed_flip: bool = False, grace: int = 0, jumps: Optional[List[int]] = None) -> Dict[str, Any]:
     grace = grace or GRACE
     """delayed_flip: the storage answers transaction 0's pointer write with a timeout and applies it LATER (actor N lands
     it): an ambiguous commit outcome on a store whose write failures are not atomic."""
@@ -164,9 +164,9 @@ def run_case(ctx, txns: List[Dict[str, Any]], chooser_factory, age_jump: int, se
                     gc_window.update(longest if len(done) == len(gc_windows) else {"start": longest["start"]})
 
             def clock_body() -> Any:
-                for _ in range(2):
+                for j in (jumps if jumps is not None else [age_jump, age_jump]):
                     sc.yield_point("Tick", "")
-                    sc.clock_ms += age_jump
+                    sc.clock_ms += j
                 return "ticked"
             for i, spec in enumerate(txns):
                 sc.spawn(f"A{i}", tx_body(i, spec))
@@ -443,6 +443,26 @@ def directed_long_run(ctx, txns, quick: bool):
         yield [("segments4", seg)], run_case(ctx, txns, segment_chooser(seg), 100_000, grace=big)
 
 
+def directed_boundary(ctx, txns, quick: bool):
+    """A file whose age crosses the grace boundary DURING a short run: the transaction has written marker and file; time
+    passes until both are a little younger than the grace period; the collector loads markers and metadata (k steps); a
+    little more time passes (the run stays far shorter than the grace period, the file is now older than it); the
+    transaction commits; the collector sweeps."""
+    probe = run_case(ctx, txns, segment_chooser([("A0", 10**6), ("K", 10**6), ("G", 10**6)]), 0, jumps=[GRACE - 100, 250])
+    a0 = [e for e in probe["log"] if e["actor"] == "A0"]
+    dw = next((n for n, e in enumerate(a0) if e["op"] == "DataW"), len(a0) - 1)
+    upto = 1 + sum(1 for e in a0[:dw + 1] if yield_filter(e["op"], e["path"], e["phase"]))
+    ng = sum(1 for a in probe["schedule"] if a == "G")
+    na = sum(1 for a in probe["schedule"] if a == "A0")
+    combos = [(i, k) for i in range(upto, min(na, upto + 8)) for k in range(1, ng)]
+    if quick and len(combos) > 40:
+        combos = ctx.rng.sample(combos, 40)
+    for i, k in combos:
+        # K: step 1 starts the clock actor, step 2 performs the first jump, step 3 the second
+        seg = [("A0", i), ("K", 2), ("G", k), ("K", 10**6), ("A0", 10**6), ("G", 10**6)]
+        yield [("segments5", seg)], run_case(ctx, txns, segment_chooser(seg), 0, jumps=[GRACE - 100, 250])
+
+
 TXSETS = [
     [{"kind": "append", "rows": [{"x": 100}]}],
     [{"kind": "append", "rows": [{"x": 100}]}, {"kind": "rollback", "rows": [{"x": 200}]}],
@@ -472,6 +492,7 @@ def run(ctx) -> None:
             runs += list(directed_two_runs(ctx, txns, quick))
             runs += list(directed_delayed_flip(ctx, txns, quick))
             runs += list(directed_long_run(ctx, txns, quick))
+            runs += list(directed_boundary(ctx, txns, quick))
         for k in range(10 if quick else 200):
             seed = ctx.rng.randrange(1 << 30)
             runs.append(([("random", seed)], run_case(ctx, txns, lambda sc, seed=seed: S.random_chooser(_r.Random(seed), 0.4), 5000)))
@@ -516,7 +537,9 @@ def replay(ctx, payload) -> int:
         print("replay: no concrete case")
         return 2
     dev = c.get("deviations", [])
-    if dev and dev[0][0] == "segments4":
+    if dev and dev[0][0] == "segments5":
+        out = run_case(ctx, c["txns"], segment_chooser([(a, n) for a, n in dev[0][1]]), 0, jumps=[GRACE - 100, 250])
+    elif dev and dev[0][0] == "segments4":
         out = run_case(ctx, c["txns"], segment_chooser([(a, n) for a, n in dev[0][1]]), 100_000, grace=600_000)
     elif dev and dev[0][0] == "segments3":
         out = run_case(ctx, c["txns"], segment_chooser([(a, n) for a, n in dev[0][1]]), c.get("age_jump", 5000), delayed_flip=True)
